@@ -95,6 +95,12 @@ def make_shape(rnd, tmp, k):
         with open(os.path.join(base, 'output', 'old_report.html'), 'w') as f:
             f.write('<html>old</html>')
         shape['output'] = True
+    if not b['views'] and rnd.random() < .35:
+        sp = os.path.join(cfg, 'settings.yaml')
+        txt = open(sp, encoding='utf-8').read()
+        with open(sp, 'w', encoding='utf-8', newline='') as f:
+            f.write(txt.replace('\n', '\r\n'))          # a settings file edited on Windows
+        shape['crlf_settings'] = True
     if rnd.random() < .3:
         with open(os.path.join(base, 'notes.txt'), 'w') as f:
             f.write('user notes\n')
